@@ -189,6 +189,40 @@ pub fn c06_boundary_spec(tier: &str) -> Spec {
     }
 }
 
+/// C13, second family: two namespaces whose WAL files carry the *same name* (created in the
+/// same wall-clock millisecond by two different processes - the hooked clock is fixed), then
+/// both opened in one process. Everything keyed by a bare file name instead of a path mixes
+/// them up.
+pub fn c13_same_names_spec(tier: &str) -> Option<Spec> {
+    let mut sp = spec_for("C13", tier)?;
+    let fill = sizes().fill;
+    let mut c = Config::new(Consistency::Strict, Backend::Fd);
+    c.gate_bg = true;
+    c.clock = Clock::Fixed;
+    let mut c2 = c.clone();
+    c2.backend = Backend::Mmap;
+    sp.cfgs = if tier_is_thorough(tier) { vec![c, c2] } else { vec![c] };
+    let o = |inst: u8, key: u8, dir: u8| Op::Open { inst, key, dir };
+    sp.roots = vec![
+        vec![o(0, 0, 0), Op::Append { t: 0, len: fill }, Op::Close { inst: 0 }, Op::Restart, o(1, 1, 0), Op::Append { t: 0, len: 1 }, o(0, 0, 0)],
+        vec![o(0, 0, 0), Op::Append { t: 0, len: fill }, Op::Close { inst: 0 }, Op::Restart, o(1, 0, 1), Op::Append { t: 0, len: 1 }, Op::Append { t: 1, len: 1 }, o(0, 0, 0)],
+    ];
+    sp.max_depth = if tier_is_thorough(tier) { 3 } else { 2 };
+    sp.time_cap_s = if tier_is_thorough(tier) { 200.0 } else { 12.0 };
+    Some(sp)
+}
+
+/// C16, second family: a topic spread over ten blocks (three files), so that one batch read
+/// plans more ranges than any small fixed-size queue holds.
+pub fn c16_many_ranges_spec(tier: &str) -> Option<Spec> {
+    let mut sp = spec_for("C16", tier)?;
+    let fill = sizes().fill;
+    sp.roots = vec![(0..10).map(|_| Op::Append { t: 0, len: fill }).collect()];
+    sp.max_depth = if tier_is_thorough(tier) { 3 } else { 2 };
+    sp.time_cap_s = if tier_is_thorough(tier) { 200.0 } else { 12.0 };
+    Some(sp)
+}
+
 /// Adds the outcome of a second exploration of the same property to the first.
 pub fn merge_outcome(a: &mut crate::explore::Outcome, b: crate::explore::Outcome, label: &str) {
     a.stats.states += b.stats.states;
@@ -328,6 +362,9 @@ pub fn spec_for(prop: &str, tier: &str) -> Option<Spec> {
                 Op::Append { t: 0, len: 128 },
             ]);
             roots.push(vec![Op::Batch { t: 0, lens: vec![0, 0, 0, 0, 0, 0, 0, 0, 0] }, Op::Append { t: 0, len: 128 }]);
+            // a zero-length entry as the last entry of a sealed block (it ends exactly at the block end / not)
+            roots.push(vec![Op::Append { t: 0, len: fill - 256 }, Op::Append { t: 0, len: 0 }, Op::Append { t: 0, len: 1 }]);
+            roots.push(vec![Op::Append { t: 0, len: 200 }, Op::Append { t: 0, len: 0 }, Op::Append { t: 0, len: fill }]);
             // entry-cap family (2000): a topic holding 1999 / 2000 / 2001 / 4001 entries
             for extra in [0usize, 1, 2] {
                 let mut r = vec![Op::BatchN { t: 0, n: 1999, len: 1 }];
@@ -460,13 +497,18 @@ pub fn spec_for(prop: &str, tier: &str) -> Option<Spec> {
                         v.push(Op::Append { t: 0, len: max_alloc - 255 });
                         v.push(Op::BatchN { t: 0, n: 2001, len: 0 });
                         v.push(Op::Batch { t: 0, lens: vec![] });
+                        if prop_s == "C16" {
+                            // a topic name one byte too long for the entry header, on both paths
+                            v.push(Op::AppendLongTopic { name_len: 217, len: 8, batch: false });
+                            v.push(Op::AppendLongTopic { name_len: 217, len: 8, batch: true });
+                        }
                         if prop_s == "C04" {
                             v.push(Op::Append { t: 2, len: max_alloc }); // first op on a new topic fails
                             if thorough {
                                 v.push(Op::Batch { t: 2, lens: vec![] });
                             }
                             v.push(Op::AppendLongTopic { name_len: 300, len: 8, batch: false });
-                            v.push(Op::AppendLongTopic { name_len: 300, len: 8, batch: true });
+                            v.push(Op::AppendLongTopic { name_len: 217, len: 8, batch: true });
                             v.push(Op::Batch { t: 0, lens: vec![1, max_alloc] });
                             // over the batch byte cap (build-time scaled to 1 MiB)
                             v.push(Op::BatchN { t: 0, n: 140, len: max_alloc - 300 });
@@ -483,7 +525,7 @@ pub fn spec_for(prop: &str, tier: &str) -> Option<Spec> {
                 owned: match prop {
                     "C15" => vec!["count", "crash"],
                     "C06" => vec!["read.order", "read.empty", "read.err", "read.panic", "reopen.err", "reopen.panic", "count", "crash"],
-                    "C04" => vec!["read.order", "read.empty", "read.err", "read.panic", "count", "crash", "append.accepted_oversize", "append.accepted_longtopic"],
+                    "C04" => vec!["read.order", "read.empty", "read.err", "read.panic", "count", "crash", "append.accepted_oversize", "append.accepted_longtopic", "append.panic"],
                     _ => vec![],
                 },
                 dedup: true,
@@ -575,7 +617,7 @@ pub fn spec_for(prop: &str, tier: &str) -> Option<Spec> {
                     v
                 }),
                 max_depth: if thorough { 4 } else { 2 },
-                owned: vec!["peek.changed", "peek.differs", "peek.result", "crash"],
+                owned: vec!["peek.changed", "peek.differs", "peek.result", "reclaim.bookkeeping", "crash"],
                 dedup: true,
                 time_cap_s: if thorough { 1100.0 } else { 110.0 },
                 extra: None,
@@ -914,6 +956,18 @@ pub fn run_check(prop: &str, tier: &str) -> i32 {
             let out2 = explore(&pool, &c01_product_spec(tier), &kf);
             merge_outcome(&mut out, out2, "layouts-x-budgets");
         }
+        if prop == "C13" && out.violations.is_empty() {
+            if let Some(sp2) = c13_same_names_spec(tier) {
+                let out2 = explore(&pool, &sp2, &kf);
+                merge_outcome(&mut out, out2, "equal-file-names");
+            }
+        }
+        if prop == "C16" && out.violations.is_empty() {
+            if let Some(sp2) = c16_many_ranges_spec(tier) {
+                let out2 = explore(&pool, &sp2, &kf);
+                merge_outcome(&mut out, out2, "ten-blocks");
+            }
+        }
         if prop == "C06" && out.violations.is_empty() {
             let out2 = explore(&pool, &c06_boundary_spec(tier), &kf);
             merge_outcome(&mut out, out2, "block-boundary-layouts");
@@ -929,6 +983,12 @@ pub fn run_check(prop: &str, tier: &str) -> i32 {
         );
         if prop == "C01" {
             rule.push_str("; plus a product family (per_config keys layouts-x-budgets/<config>): every layout of 2..3 (thorough 4) entries over {10, 128, 0.3 block, 0.73 block} bytes x 13 byte budgets around those sizes, drained by repeated consuming batch reads with that budget (depth 3, thorough 4) and a final drain");
+        }
+        if prop == "C13" {
+            rule.push_str("; plus a family (per_config keys equal-file-names/<config>) in which two namespaces hold WAL files of the same name (created in the same wall-clock millisecond by two processes, hooked clock fixed) and are then opened together, depth 2 (thorough 3)");
+        }
+        if prop == "C16" {
+            rule.push_str("; plus a family (per_config keys ten-blocks/<config>) starting from a topic spread over ten blocks in three files, depth 2 (thorough 3)");
         }
         if prop == "C06" {
             rule.push_str("; plus a block-boundary family (per_config keys block-boundary-layouts/<config>): 12 layouts ending exactly at, one byte before and one byte behind a block boundary (zero-length entry in the last header-sized slot, entries filling a one-unit or two-unit block to the byte, as appends and as batches) x every sequence of up to 2 (thorough 3) reads / appends / reopen / restart, with drain tails before and after a further restart");
